@@ -245,3 +245,35 @@ Example ex_smt_published_with_trailing_key :
   verify_smt poseidon q unit (fun _ _ => did_doc [VMStateInfo (Some true); VMOther]) (fun _ _ => Some 42)
              (fun id st => Some false) (issue_smt poseidon unit Z false s cl tt) = Ok tt.
 Proof. vm_compute. reflexivity. Qed.
+
+(* ---- the status entry only ---- *)
+Definition st_obj : list (string * jv) :=
+  [("id", JStr "https://status.example/x"); ("type", JStr "SparseMerkleTreeProof"); ("revocationNonce", JNum 9)]%string.
+Example ex_status_json_decodes :
+  decode_cs 8 json_rt st_obj = Some (mkcs "SparseMerkleTreeProof" 9).
+Proof. vm_compute. reflexivity. Qed.
+Example ex_status_issuer_ignored :
+  decode_cs 8 json_rt (("statusIssuer", JObj [("type", JStr "Other"); ("revocationNonce", JNum 77)]) :: ("extra", JBad) :: st_obj)%string
+  = Some (mkcs "SparseMerkleTreeProof" 9).
+Proof. vm_compute. reflexivity. Qed.
+Example ex_status_issuer_malformed : decode_cs 8 json_rt (("statusIssuer", JStr "x") :: st_obj)%string = None.
+Proof. vm_compute. reflexivity. Qed.
+Example ex_status_nonce_string : decode_cs 8 json_rt [("type", JStr "T"); ("revocationNonce", JStr "9")]%string = None.
+Proof. vm_compute. reflexivity. Qed.
+
+(* REFUTATION of "statusIssuer as a fallback" (seeded change C07-q): the primary entry (right
+   nonce, type without a resolver) cannot be validated, the nested entry names ANOTHER nonce that
+   a working resolver reports unrevoked: the fallback variant accepts although the property's
+   status clause fails for the entry *)
+Theorem status_issuer_fallback_refuted :
+  exists (poseidon : list Z -> Z) (q : Z) (reg : registry) (primary nested : cred_status) (auth : claim),
+    validate_auth_revocation_with_fallback poseidon q reg primary (Some nested) auth = Ok tt /\
+    cs_nonce nested <> claim_nonce auth /\
+    ~ status_not_revoked poseidon q reg primary /\
+    exists t, validate_auth_revocation poseidon q reg (RSObj (Some primary)) (Some auth) = Err t.
+Proof.
+  exists poseidon, q, reg, (mkcs "NoResolverForThisType" 9), (mkcs "SparseMerkleTreeProof" 5), auth.
+  split; [vm_compute; reflexivity|]. split; [vm_compute; discriminate|]. split.
+  - intros H. apply v78_validate_status_ok_iff in H. destruct H as (ans & H). vm_compute in H. discriminate.
+  - eexists. vm_compute. reflexivity.
+Qed.
